@@ -18,11 +18,12 @@ ASSUMPTIONS = ['an unfinished request is one whose process is, in truth, not yet
                'the STOP strategy clause "the application is then stopped" is not decided here (see C09/C06)']
 FLOORS = {'quick': {'start_emissions': 1500, 'process_order_checks': 1000, 'automatic_emissions': 600,
                     'skip_checks': 200, 'required_failures': 20, 'restart_sequence_refused_jobs_in_progress': 60,
-                    'applications_requested_behind_a_queued_process_of_theirs': 25},
+                    'applications_requested_behind_a_queued_process_of_theirs': 25, 'start_requests_lost': 80},
           'thorough': {'start_emissions': 40000, 'process_order_checks': 25000, 'automatic_emissions': 15000,
                        'skip_checks': 5000, 'required_failures': 500,
                        'restart_sequence_refused_jobs_in_progress': 1000,
-                       'applications_requested_behind_a_queued_process_of_theirs': 400}}
+                       'applications_requested_behind_a_queued_process_of_theirs': 400,
+                       'start_requests_lost': 1500}}
 COUNT = {'quick': 480, 'thorough': 12000}
 BUDGET_S = {'quick': 55, 'thorough': 540}
 
